@@ -268,4 +268,21 @@ PLAN = {
             {"name": "miri", "flavour": "miri", "shards": 6, "shards_thorough": 48, "miriflags": TB + " " + IGN, "timeout": 1500},
         ],
     },
+    "C19": {
+        "level": "exploration",
+        "rule": "seq leg: histories (5-55 steps) of describe (3 kinds, unit present/absent) / register+update (equal keys rebuilt through "
+                "10 construction paths with permuted labels, same name across kinds, some through with_local_recorder + macros) / snapshot "
+                "against a reference (first-registration order, described-only excluded, current counter/gauge values incl. NaN, histogram "
+                "values since the previous snapshot, latest description, unit kept when a later description has none), beside a second "
+                "unrelated recorder. concurrent legs: 2-5 recorder threads vs a snapshot thread; every histogram value in exactly one "
+                "snapshot and never in a later one than the first snapshot begun after it was recorded; counter interval rule; one leg "
+                "with random holds at the bucket hook points. distinct = history hash.",
+        "assumptions": ["histogram values compared as multisets per snapshot"],
+        "legs": [
+            {"name": "seq", "flavour": "native", "shards": 4, "shards_thorough": 16},
+            {"name": "concurrent", "flavour": "native", "shards": 4, "shards_thorough": 16},
+            {"name": "concurrent-hooks", "flavour": "native", "shards": 2, "shards_thorough": 8, "scale": 0.5},
+            {"name": "miri", "flavour": "miri", "shards": 4, "shards_thorough": 32, "miriflags": TB + " " + IGN, "timeout": 1500},
+        ],
+    },
 }
